@@ -69,6 +69,34 @@ def make_input(rng: random.Random, name: str, p_bad: float = 0.3) -> dict:
     return d
 
 
+def byte_variants(brng: random.Random, inp: dict) -> None:
+    """Byte-level shapes of an input text (own random stream; applied before the file is placed): UTF-8 BOM, a byte
+    that is not valid UTF-8 (carried as a lone surrogate and written with surrogateescape - what a C-locale stdin
+    hands to the program), a NUL byte, lone-CR line ends."""
+    if not inp.get("text") or inp["kind"] in ("missing", "dir", "empty"):
+        return
+    x = brng.random()
+    t = inp["text"]
+    if x < 0.03:
+        inp["text"] = "\ufeff" + t
+        tag = "bom"
+    elif x < 0.07:
+        k = brng.randrange(len(t) + 1)
+        inp["text"] = t[:k] + brng.choice(["\udcff", "\udc80", "\udce9"]) + t[k:]
+        inp["kind"] = "nonutf8"
+        tag = "nonutf8"
+    elif x < 0.085:
+        k = brng.randrange(len(t) + 1)
+        inp["text"] = t[:k] + "\x00" + t[k:]
+        tag = "nul"
+    elif x < 0.10:
+        inp["text"] = t.replace("\n", "\r")
+        tag = "lone-cr"
+    else:
+        return
+    inp["tags"] = list(inp.get("tags", [])) + [tag]
+
+
 def place_inputs(rng: random.Random, inputs: list[dict], spec: dict) -> None:
     """Put input files into the world (in/ or cwd/) and record how a process refers to them."""
     for inp in inputs:
